@@ -140,6 +140,15 @@ CLAIMS["C20"] = dict(text="bounded symbolic model checking of the real train/qch
                     "dynamics.TimeEvolution conserves every mode's photon number and implements the documented phase on an arbitrary Gaussian state "
                     "(n<=2; thorough n<=3)", design_ref="5/C20",
                     note=NOTE + "; partial claim: KL (hafnian/torontonian probabilities), vibronic gbs_params/duschinsky (SVD), similarity exact probabilities and samplers are outside (listed in evidence)")
+CLAIMS["C12"] = dict(text="bounded symbolic model checking of the encodable kernels of hardware compilation (partial claim): (a) Range/Ranges.__contains__ and "
+                    "Device.validate_parameters (scalars, flat and nested lists): accepted <=> some allowed range contains every value within atol, for "
+                    "SYMBOLIC values and range ends (every comparison of the real code is a solver-checked branch, the verdict is proved under each "
+                    "path condition); (b) Borealis.update_params: for symbolic loop offsets and user phases, 38 time bins (thorough 80), every subset of "
+                    "user-set loops, each compensated phase lies in [-pi/2, pi/2] and is congruent mod pi to user phase + offset*floor(j/delay) minus the "
+                    "previous loop's correction (QF_LIRA with floor atoms), user-set loops and non-phase parameters untouched; (c) Program.assert_modes / "
+                    "TDMProgram.assert_modes: CircuitError <=> a measurement count / shape exceeds the device's, symbolic limits", design_ref="5/C12",
+                    note=NOTE + "; PARTIAL: layout conformance (networkx VF2 + blackbird template matching on concrete parameters) and preservation of photon statistics by "
+                                "Xunitary/Xcov (Takagi/Bloch-Messiah via LAPACK, MZ-mesh queries undecided within the cap) are outside this technique's reach and NOT claimed")
 NA_DEFAULT = "check not built yet in this session (plan: DESIGN.md section 5)"
 NA = {}
 
